@@ -2,7 +2,9 @@ package drv
 
 import (
 	"fmt"
+	"runtime"
 	"strings"
+	"time"
 
 	"verif/harness/vdisk"
 )
@@ -597,6 +599,66 @@ func init() {
 		p.Enumerate(d, false, 4096, 5)
 		p.Tail()
 	}})
+	// The background shrinker is parked before its first transaction: whatever a client does to the file whose
+	// truncation is still pending must look exactly as if the truncation were complete (requests complete it themselves).
+	for _, variant := range []string{"write-over-eof", "write-at-eof", "grow", "remove-recreate", "shrink-again"} {
+		variant := variant
+		Probes = append(Probes, Probe{"shrinker-parked-" + variant, []string{"C03", "C12", "C05", "C02"}, 16000, func(p *P) {
+			const B = 4096
+			f := p.Create(p.Root, "f").RFh
+			for i := 0; i < 6; i++ {
+				p.Write(f, i*100*B, 100*B, 2)
+			}
+			release := make(chan struct{})
+			Mon.Yield = func(ev string) {
+				if ev != "begin" {
+					return
+				}
+				buf := make([]byte, 8192)
+				n := runtime.Stack(buf, false)
+				if strings.Contains(string(buf[:n]), "shrinker.") && !strings.Contains(string(buf[:n]), "NFSPROC3_") {
+					select {
+					case <-release:
+					case <-time.After(60 * time.Second):
+					}
+				}
+			}
+			defer func() { Mon.Yield = nil }()
+			p.Trunc(f, B+100) // more than a journal's worth of blocks is cut: handed to the (parked) shrinker
+			switch variant {
+			case "write-over-eof":
+				p.Write(f, 4000, 5000, 2) // starts inside the new size, ends in a block that is still being freed
+				p.Trunc(f, 5*B)
+				p.Read(f, 0, 5*B)
+			case "write-at-eof":
+				p.Write(f, B+100, 3*B, 2)
+				p.Trunc(f, 8*B)
+				p.Read(f, 0, 8*B)
+			case "grow":
+				p.Trunc(f, 16*B)
+				p.Read(f, 0, 16*B)
+				p.Trunc(f, 592*B)
+				p.Read(f, 590*B, 2*B)
+			case "remove-recreate":
+				p.Remove(p.Root, "f")
+				g := p.Create(p.Root, "g").RFh
+				p.Write(g, 3*B+7, 100, 2)
+				p.Trunc(g, 16*B)
+				p.Read(g, 0, 16*B)
+			case "shrink-again":
+				p.Trunc(f, 100)
+				p.Write(f, 50, 2*B, 2)
+				p.Trunc(f, 10*B)
+				p.Read(f, 0, 10*B)
+			}
+			close(release)
+			p.S.WaitIdle()
+			p.T.Emit(TakeSnap(p.S, "run", true))
+			p.Dump()
+			p.Restart()
+			p.Tail()
+		}})
+	}
 	// A SYMLINK whose target needs two blocks when one is free: refused without effect, or stored completely.
 	Probes = append(Probes, Probe{"symlink-target-with-one-block-free", []string{"C09", "C02", "C05"}, 1700, func(p *P) {
 		filler := p.Create(p.Root, "filler").RFh
@@ -661,7 +723,7 @@ func init() {
 				p.Read(g, 8*4096, 100)
 			} else if variant == "writegrow" {
 				p.Write(g, 7*4096+100, 2*4096, 2) // grows across the boundary of the indirect range: short write
-				p.Remove(p.Root, "g")              // the index block allocated beyond the new size must go too
+				p.Remove(p.Root, "g")             // the index block allocated beyond the new size must go too
 				p.S.WaitIdle()
 				p.T.Emit(TakeSnap(p.S, "run", true))
 				g = p.Create(p.Root, "g").RFh
